@@ -66,7 +66,7 @@ example : applyTransformers exU ⟨2, exStr "m.C", [exStr "x${m.o}", .json (.int
 /-- `"${name}"`, `"$res{name}"`, `"$handle{name}"` for every non-empty name without newline
 (the name may even contain `}`): the object transformer yields `object_from_string(name)`, and the
 whole pipeline yields it too unless that object is itself a string beginning with `$res{` /
-`$handle{` (guard `NotResourceRef`, known finding D25); a resource reference yields
+`$handle{` (guard `NotResourceRef`, known finding D30); a resource reference yields
 `root['/'.join(name.split('.'))]`, a handle reference `root.get(...)`, where joining the split name
 is replacing every `.` by `/`. -/
 theorem C15_references (U : Universe) (name : Str) (hne : name ≠ []) (hnl : '\n' ∉ name) :
@@ -96,7 +96,7 @@ example : transformArg exU (exStr "${m.o}") = .ok (.obj 7) ∧
    (C15_references exU "a.r".toList (by decide) (by decide)).2.2.1 rfl,
    (C15_references exU "a.r".toList (by decide) (by decide)).2.2.2.1 rfl⟩
 
-/-- The guard of `C15_references` cannot be dropped (D25): a name that resolves to the Python string
+/-- The guard of `C15_references` cannot be dropped (D30): a name that resolves to the Python string
 `"$res{a.r}"` ends up as the loaded resource, not as the named string. -/
 theorem C15_references_guard_needed :
     exU.resolve "m.s".toList = .ok (exStr "$res{a.r}") ∧
